@@ -906,7 +906,7 @@ MATCHERS = {}
 
 TIERS = {
     "quick": {"runs": 4000, "chunk": 50, "budget_s": 60},
-    "thorough": {"runs": 100000, "chunk": 200, "budget_s": 1500},
+    "thorough": {"runs": 250000, "chunk": 250, "budget_s": 1500},
 }
 PROBES = [
     "prune",
